@@ -780,7 +780,9 @@ impl<'a> VariableParserExtension<'a> {
             .enumerate()
             .filter_map(|(i, real_idx)| {
                 let offset = real_idx * el_type_size;
-                let el_raw_data = &data[offset..(real_idx + 1) * el_type_size];
+                // head, len and capacity come from debugee memory and may contradict each other
+                // (uninitialised or corrupted deque): never index outside the fetched buffer
+                let el_raw_data = data.get(offset..(real_idx + 1) * el_type_size)?;
                 let el_data = ObjectBinaryRepr {
                     raw_data: data.slice_ref(el_raw_data),
                     address: Some(data_ptr + offset),
